@@ -29,6 +29,10 @@ CHECKS = {
    text="TLA+ spec Handshake (client reconstructed from its Initial packets on the wire: version / connection-ID / Retry / Version-Negotiation rules; outcome from Dial / Accept; ISCID transport parameter = header SCID) model-checked by TLC with a lossy network and a packet-forging attacker; TLC enumerates fault schedules on the first flights; for every built-in QUICID, 11 derived specs, UTransport without spec and plain Transport x 4 server configurations, three successive dials through one spec value run against the in-tree server over simnet; client Initials are decrypted by an independent observer; wire + API traces are validated by TLC in collect mode (every failing execution is classified).",
    note="Trusted: TLC, independent Initial-packet observer, go1.26 synctest + simnet. 4 open known findings (spec value is mutated by a dial: key shares / initial_source_connection_id reused), so redials of spec clients are known to fail; first dials and plain / nil-spec clients must succeed under every schedule.",
    technique="TLA+ model checking (TLC) + TLC-enumerated fault schedules replayed into real connections + TLC trace validation of wire and API events"),
+ "C13": dict(engine="Handshake", design="5 C13",
+   text="Same TLA+ spec as C02 (Handshake) with the attacker part: forged Version Negotiation / Retry (invalid tag) / correctly keyed Initial with CONNECTION_CLOSE / replayed client Initial injected after the k-th delivered datagram of either direction, crossed with server configurations (default, Retry, v2-only), client kinds and TLC-enumerated loss / delay schedules; the spec marks the windows in which QUIC cannot tell a forged packet from a genuine one (there the handshake may fail cleanly) and requires an unchanged, successful outcome everywhere else; plus 0-RTT accept / reject scenarios (early data exactly once / never). Model-checked by TLC (network + attacker), real handshakes validated by TLC from wire + API traces.",
+   note="Trusted: TLC, the observer's packet forging and parsing, go1.26 synctest + simnet. Long certificate chains and CONNECTION_CLOSE in Handshake / 1-RTT packets are not injected. Resource release after failure is checked only as 'Dial / Accept return within the 15 s scenario deadline'.",
+   technique="TLA+ model checking (TLC) with attacker model + TLC-enumerated fault / injection schedules replayed into real handshakes + TLC trace validation"),
 }
 NA = {}
 
